@@ -681,12 +681,15 @@ def value_use(name):
         """Sets the value"""
         if not isinstance(value, Value):
             raise TypeError(f"Expecting a Value instance, but got {value}")
-        # If value was already set, remove usage
-        if name in self._var_map:
-            self.del_use(self._var_map[name])
+        old = self._var_map.get(name)
 
         # Place the value in the var map:
         self._var_map[name] = value
+
+        # If value was already set, remove usage (unless another
+        # operand still refers to it):
+        if old is not None and all(v is not old for v in self._var_map.values()):
+            self.del_use(old)
 
         # Add usage:
         self.add_use(value)
@@ -736,11 +739,14 @@ class Instruction:
         """
         # TODO: update reference
         # assert old in self._var_map.values()
+        replaced = False
         for name in self._var_map:
             if self._var_map[name] is old:
-                self.del_use(old)
                 self._var_map[name] = new
-                self.add_use(new)
+                replaced = True
+        if replaced:
+            self.del_use(old)
+            self.add_use(new)
 
     def remove_from_block(self):
         for use in list(self.uses):
@@ -883,9 +889,11 @@ class FunctionCall(LocalValue):
     def replace_use(self, old, new):
         super().replace_use(old, new)
         if old in self.arguments:
-            idx = self.arguments.index(old)
-            self.del_use(old)
-            self.arguments[idx] = new
+            for idx, value in enumerate(self.arguments):
+                if value is old:
+                    self.arguments[idx] = new
+            if old in self.uses:
+                self.del_use(old)
             self.add_use(new)
 
     def __str__(self):
@@ -914,9 +922,11 @@ class ProcedureCall(Instruction):
     def replace_use(self, old, new):
         super().replace_use(old, new)
         if old in self.arguments:
-            idx = self.arguments.index(old)
-            self.del_use(old)
-            self.arguments[idx] = new
+            for idx, value in enumerate(self.arguments):
+                if value is old:
+                    self.arguments[idx] = new
+            if old in self.uses:
+                self.del_use(old)
             self.add_use(new)
 
     def __str__(self):
@@ -1019,10 +1029,10 @@ class Phi(LocalValue):
         """Replace old value reference by new value reference"""
         assert old in self.inputs.values()
         for inp in self.inputs:
-            if self.inputs[inp] == old:
-                self.del_use(old)
+            if self.inputs[inp] is old:
                 self.inputs[inp] = new
-                self.add_use(new)
+        self.del_use(old)
+        self.add_use(new)
 
     def set_incoming(self, block, value):
         """Set the value for the phi node when entering through block"""
@@ -1030,9 +1040,10 @@ class Phi(LocalValue):
             raise ValueError(
                 f"Type mismatch {value.ty} where {self.ty} was expected"
             )
-        if block in self.inputs:
-            self.del_use(self.inputs[block])
+        old = self.inputs.get(block)
         self.inputs[block] = value
+        if old is not None and all(v is not old for v in self.inputs.values()):
+            self.del_use(old)
         self.add_use(value)
 
     def get_value(self, block):
@@ -1206,9 +1217,11 @@ class InlineAsm(Instruction):
     def replace_use(self, old, new):
         super().replace_use(old, new)
         if old in self.input_values:
-            idx = self.input_values.index(old)
-            self.del_use(old)
-            self.input_values[idx] = new
+            for idx, value in enumerate(self.input_values):
+                if value is old:
+                    self.input_values[idx] = new
+            if old in self.uses:
+                self.del_use(old)
             self.add_use(new)
 
     def __str__(self):
